@@ -212,7 +212,8 @@ def files_case(rec, hub, rng, tier, d, tmpdir, i):
         dim_sheets[n] = sheet
     size = {l: len(it) for l, n, it, dt in d.dims}
     for p in d.parameters:
-        vals = (rng.integers(1, 4000, size=tuple(size[l] for l in p["letters"])).astype(float)) / 8.0
+        # values stay clear of every item set, also after truncation to int (the converter tests the value column against item sets)
+        vals = 4096.0 + (rng.integers(1, 4000, size=tuple(size[l] for l in p["letters"])).astype(float)) / 8.0
         truth[p["name"]] = vals
         path = os.path.join(tmpdir, f"par_{i % 2}_{p['name'].replace(' ', '_')}.{ext}")
         sheet = f"sheet {p['name']}" if route == "xlsx-named-sheets" else None
